@@ -218,9 +218,10 @@ Definition inside (dir f : rpath) : bool :=
 
 (* ---------- name validation ---------- *)
 
-(* Today the server validates neither owner nor database names on the routes that create
-   files (routes/db.rs add/copy/rename, routes/admin/db.rs): the strings go straight into
-   db_file.  Only user names have a length check (password.rs:109, len >= 3), which does not
+(* Up to /repo 7a9106f the server validated neither owner nor database names on the routes that
+   create files (routes/db.rs add/copy/rename, routes/admin/db.rs): the strings went straight into
+   db_file (`accepts_today`).  Since 7a9106f utilities::validate_db_name = `valid_name` below is
+   applied to database names there.  Only user names have a length check (password.rs:109, len >= 3), which does not
    restrict their content. *)
 Definition accepts_today (n : name) : bool := true.
 
